@@ -258,6 +258,9 @@ type StorePolicy struct {
 	ACR        string `json:"acr,omitempty"`
 	// ErrStyle: how the storage reports its own refusals (see Store.refuse): "" plain error, "oidc", "wrapped", "server"
 	ErrStyle string `json:"err_style,omitempty"`
+	// NoRotate: a refresh keeps the refresh token - CreateAccessAndRefreshTokens hands the presented string back as the new
+	// refresh token (the interface allows it: "newRefreshToken" is whatever the storage decides) instead of minting a new one.
+	NoRotate bool `json:"no_rotate,omitempty"`
 	// EmptySecretOK: AuthorizeClientIDSecret compares the presented secret with the stored one as plain strings, so a client
 	// that holds no secret (private_key_jwt, public) "matches" an empty presented secret - as example/server/storage does.
 	// A caller that presents nothing has proved nothing: whether such a client is served is the library's decision.
@@ -640,10 +643,22 @@ func (s *Store) CreateAccessAndRefreshTokens(ctx context.Context, req op.TokenRe
 		if !isRefresh || rr.rt != old {
 			return "", "", time.Time{}, s.refuse("grant", "refresh token does not belong to this request")
 		}
-		old.Dead = true
 		if at, ok := s.Tokens[old.AccessID]; ok {
 			at.Revoked = true
 		}
+		if s.Policy.NoRotate {
+			// a storage that keeps the refresh token: the record lives on, the presented string is handed back as the "new" token
+			if s.Policy.NarrowPersists {
+				old.Scopes = slices.Clone(req.GetScopes())
+			}
+			at := s.newAccess(req, old.Token)
+			old.AccessID = at.ID
+			if f != nil {
+				return at.ID, old.Token, at.Exp, f.err()
+			}
+			return at.ID, old.Token, at.Exp, nil
+		}
+		old.Dead = true
 		authTime, amr, lineage, orig = old.AuthTime, old.AMR, old.Lineage, old.OrigScopes
 	} else {
 		s.lineages++
